@@ -54,7 +54,11 @@ def fresh_module(h):
 def apply_op(h, m, env, op):
     name, kind, form = op
     # "same": the object the name already holds is stored again under it
-    v = mk_value(h, env, kind) if kind != "same" else m.namespace[name]
+    v = mk_value(h, env, kind) if kind not in ("same", "flip") else m.namespace[name]
+    if kind == "flip":
+        # the signal's visibility is changed in place, then it is stored again under its name - which re-files it
+        V = h.signal.Visibility
+        v.vis = V.INTERNAL if v.vis == V.PORT else V.PORT
     if form == "setattr":
         setattr(m, name, v)
     elif form == "add_named":
@@ -160,7 +164,9 @@ def _history(hist):
             if not (op[1] == "same" and op[2] == "add_name_arg"):
                 return ("op raised: " + short_exc(e), step, model)
             v = objs[op[0]]
-        if op[1] != "same":
+        if op[1] == "flip":
+            model[op[0]] = {"sig": "port", "port": "sig"}[model[op[0]]]
+        if op[1] not in ("same", "flip"):
             model[op[0]] = op[1]
             objs[op[0]] = v
         elif v is not objs[op[0]]:
@@ -181,6 +187,7 @@ def _history(hist):
                 apply_op(h, m2, env2, op)
         return m2
 
+
     if len(hist) <= 2:
         p = shadow_probe(h, scratch)
         if p:
@@ -193,6 +200,15 @@ def _history(hist):
         odev, opart = observe.O_pkg(pkg, design)
     except Exception as e:
         return ("export of the edited module failed: " + short_exc(e), len(hist), model)
+    # the elaborated module: the namespace is the disjoint union of the kind views, and get() agrees with it
+    union = {}
+    for vn in set(VIEW_OF.values()):
+        for n, o in getattr(m, vn).items():
+            if n in union:
+                return (f"after elaboration {n!r} is listed in two views", len(hist), model)
+            union[n] = o
+    if set(union) != set(m.namespace) or any(m.namespace[n] is not o or m.get(n) is not o or getattr(m, n, None) is not o for n, o in union.items()):
+        return (f"after elaboration the namespace holds {sorted(m.namespace)} but the views list {sorted(union)}", len(hist), model)
     if observe.devices_agree(rdev, odev) or opart != rpart:
         return ("exported package differs from the module's meaning", len(hist), model)
     top = [pm for pm in pkg.modules if pm.name.endswith("Subject")][0]
@@ -513,16 +529,21 @@ def _bundle_history(hist):
 
 def enabled(hist):
     """`same` needs the name to be held already."""
-    held = set()
+    held = {}
     for n, k, f in hist:
         if k == "same" and n not in held:
             return False
-        held.add(n)
+        if k == "flip":
+            if held.get(n) not in ("sig", "port") or f == "add_name_arg":
+                return False
+            held[n] = {"sig": "port", "port": "sig"}[held[n]]
+        elif k != "same":
+            held[n] = k
     return True
 
 
 def run(ctx):
-    ops = [(n, k, f) for n in NAMES for k in MKINDS + ["same"] for f in FORMS]
+    ops = [(n, k, f) for n in NAMES for k in MKINDS + ["same", "flip"] for f in FORMS]
     # (1) BFS with state merging on the model state
     seen = {(): []}
     frontier = [((), [])]
